@@ -96,6 +96,14 @@ def graphIll (cx : WfCtx) (f : Function) : Option String :=
     | some en, some ex => (reachRounds c.edges c.blocks.length [en]).contains ex
     | _, _ => false
   let detOk := c.blocks.all (fun b => guardsPartition ((c.edgesOut b.index).map (·.cond)))
+  -- "in every state exactly one outgoing edge of each block is enabled": a block other than the exit without any
+  -- outgoing edge is a dead end, and control leaves the graph at the exit, not through an edge out of it
+  -- (blocks that no path from the entry reaches are junk, not dead ends: the AArch64 lifter leaves an empty orphan block
+  -- in the graph of an unsupported instruction)
+  let reached := match c.entry with | some en => reachRounds c.edges c.blocks.length [en] | none => []
+  let deadEndOk := c.blocks.all (fun b =>
+    c.exit == some b.index || !(c.edgesOut b.index).isEmpty || !reached.contains b.index)
+  let exitLastOk := match c.exit with | some ex => (c.edgesOut ex).isEmpty | none => true
   let badGuards : String :=
     match c.blocks.find? (fun b => !guardsPartition ((c.edgesOut b.index).map (·.cond))) with
     | some b => " [" ++ " | ".intercalate ((c.edgesOut b.index).map (fun e =>
@@ -107,7 +115,7 @@ def graphIll (cx : WfCtx) (f : Function) : Option String :=
     | none => ""
   firstFalse [("operation-width" ++ badOp, opsOk), ("guard-width", guardsOk), ("dangling-edge", edgesOk),
     ("no-entry", entryOk), ("no-exit", exitOk), ("exit-unreachable", reachOk),
-    ("edge-determinism" ++ badGuards, detOk)]
+    ("edge-determinism" ++ badGuards, detOk), ("dead-end-block", deadEndOk), ("edge-out-of-exit", exitLastOk)]
 
 /-- scalar names used at two different widths anywhere in the lifted block -/
 def scalarsOf (r : BTR) : List Scalar :=
